@@ -9,7 +9,10 @@
         if dl, ok := ctx.Deadline(); ok { /* ctx keeps its deadline */ }
         else { ctx, cancel = context.WithTimeout(ctx, timeout) }
     i.e. the caller's context deadline if it has one, otherwise now + (per-call timeout, else the
-    configured one);
+    configured one) — for EVERY value of that timeout: a timeout of 0 gives `WithTimeout(ctx, 0)`, a
+    deadline that has expired when the call starts, so the call comes back at once with a timeout (a
+    negative timeout or a context that expired before the call behave the same; the Nat-valued clock of
+    the model represents both by a deadline equal to the start);
   * `<-ctx.Done()` (action `timeout`) is possible only once `now ≥ deadline`;
   * time passes by the action `tick`, and only when no goroutine of a call could move without
     waiting (`canTick`): computation steps are instantaneous, `net.DialTimeout` returns within
@@ -67,11 +70,17 @@ def passesInvokeCtx : Path → Bool
   | .single => Consts.callCtxSiteSingle == 1
   | .middleware => Consts.callCtxSiteMiddleware == 1
 
+/-- is `ctx, cancel = context.WithTimeout(ctx, timeout)` executed whenever the caller's context has no
+    deadline — whatever the value of `timeout`, in particular for `timeout = 0` (the wrapped context is
+    then expired from the start)?  Re-extracted: the assignment sits directly in the `else` of
+    `if dl, ok := ctx.Deadline(); ok`, under no comparison of the timeout with a literal. -/
+def wrapsWhateverTimeout : Bool := Consts.callWithTimeoutUnguarded == 1
+
 /-- the deadline of the context `doInvoke` waits on (`none`: it never expires) -/
 def handedDeadline (cfg : Cfg) (now : Nat) (par : Params) (p : Path) : Option Nat :=
   match par.ctxDeadline with
   | some d => some d                    -- both contexts carry the caller's deadline
-  | none => if passesInvokeCtx p then some (now + effTimeout cfg par) else none
+  | none => if passesInvokeCtx p && wrapsWhateverTimeout then some (now + effTimeout cfg par) else none
 
 structure Times where
   start : Nat
